@@ -103,6 +103,8 @@ def _shard_entry(args):
     os.environ['VERIF_IN_SHARD'] = '1'
     import logging
     logging.disable(logging.CRITICAL)
+    import warnings as _w
+    _w.filterwarnings('ignore', message=r'coroutine .* was never awaited', category=RuntimeWarning)   # torn-down harness tasks
     t0 = time.time()
     try:
         mod = importlib.import_module(modname)
@@ -156,6 +158,8 @@ def main(argv=None):
 
     import logging
     logging.disable(logging.CRITICAL)
+    import warnings as _w
+    _w.filterwarnings('ignore', message=r'coroutine .* was never awaited', category=RuntimeWarning)   # torn-down harness tasks
     # replay corpus first (committed shrunk failures / regression inputs)
     corpus_failures = []
     corpus_n = 0
@@ -330,6 +334,8 @@ def _do_replay(mod, prop, path, known):
         doc = json.load(f)
     import logging
     logging.disable(logging.CRITICAL)
+    import warnings as _w
+    _w.filterwarnings('ignore', message=r'coroutine .* was never awaited', category=RuntimeWarning)   # torn-down harness tasks
     try:
         fs = mod.replay(doc['case']) or []
     except Exception:
